@@ -300,8 +300,8 @@ def r015_param_routing(ctx, rule):
     lev = [x for x in r.events if x.kind == "loop" and x.data.get("lid") == e.loops[-1]][0]
     k_, f_ = mk("sub", lev.data["elem"], const(0)), mk("sub", lev.data["elem"], const(1))
     sp = kw(e, "sample_params")
-    oks = sp is not None and any(A.eq(sp, A.spec("S.get(k, {})", {"S": s_, "k": k_})) or A.eq(sp, A.spec("S.get(k, dict())", {"S": s_, "k": k_}))
-                                 for s_ in S)
+    oks = sp is not None and any(A.eq(sp, A.spec(form, {"S": s_, "k": k_})) for s_ in S
+                                 for form in ("S.get(k, {})", "S.get(k, dict())", "S.get(k) or {}", "S[k] if k in S else {}"))
     lits = [A.C.canon(l) for l in pc_literals(e.pc)]
     ok = kw(e, "func") is f_ and kw(e, "name") is k_ and oks and kw(e, "all_data") is P["all_data"] and isd in lits \
         and A.eq(lev.data["iter"], A.entry(r, "metric.items()"))
